@@ -108,6 +108,12 @@ func Harness_C15_apq() {
 	if !wellFormed {
 		zzsym.Assert(cache.adds == 0 && len(cache.m) == before, "a request without a well-formed APQ extension registers nothing")
 		zzsym.Assert(p.Query == text, "and its query text is untouched")
+		if _, has := p.Extensions["persistedQuery"]; has {
+			// malformed, no version, another version, a hash that is not a string: refused - whether or not a text came with it
+			zzsym.Assert(gerr != nil, "a persistedQuery extension that is malformed or of an unsupported version is refused, never served as a plain request")
+		} else {
+			zzsym.Assert(gerr == nil, "a request without a persistedQuery extension is none of APQ's business")
+		}
 		zzsym.Reach("apq.noext")
 		return
 	}
